@@ -25,7 +25,8 @@ Inductive aop :=
 | AHold (o : op)                (* create the future, poll it once, keep it while Pending *)
 | ARepoll (k : stage)           (* poll the kept future again *)
 | ADropFut (k : stage)          (* drop the kept future *)
-| ASetTask (n : nat).           (* another task becomes the poller *)
+| ASetTask (n : nat)            (* another task becomes the poller *)
+| ARewrap (k : stage).          (* [into_sync] then [from_sync]: the same iterator in a fresh wrapper - the registered waker is released, nothing else changes *)
 
 (** the operations that exist as futures, and the iterator they borrow *)
 Definition future_of (o : op) : option stage :=
@@ -103,6 +104,10 @@ Definition astep (s : astate) (o : aop) : astate * (out * list lev) :=
       | None => (s, (OBad, []))
       end
   | ASetTask n => (mkA (base s) (held s) (wk s) n (wakes s), (OUnit, []))
+  | ARewrap k =>
+      if free_iter k s && usable k (base s) && negb (det (it_of k (base s)))
+      then (mkA (base s) (held s) (tset k None (wk s)) (task s) (wakes s), (OUnit, []))
+      else (s, (OBad, []))
   end.
 
 Fixpoint arun (s : astate) (h : list aop) : astate * list (out * list lev) :=
